@@ -5,6 +5,7 @@ for s in "$@"; do
   for id in C05 C18 C16; do
     out=$(./check $id --tier thorough --seed $s 2>&1); rc=$?
     echo "seed=$s $id thorough exit=$rc"
-    [ $rc -ne 0 ] && echo "$out" | grep -E '^(violation|VIOLATION|harness)' | cut -c1-500
+    if [ $rc -ne 0 ]; then echo "$out" | grep -E '^(violation|VIOLATION|harness)' | cut -c1-500; fi
   done
 done
+exit 0
